@@ -79,6 +79,12 @@ RYAct(m, d) == LET mm == Mod(m, 4) IN
     [] mm = 1 -> IF d = 0 THEN << <<1>>, 0 >> ELSE << <<0>>, 24 >>
     [] mm = 3 -> IF d = 0 THEN << <<1>>, 24 >> ELSE << <<0>>, 0 >>
 
+\* U1q(theta, phi) = [[cos(t/2), -i e^{-i phi} sin(t/2)], [-i e^{i phi} sin(t/2), cos(t/2)]], theta = m*pi
+U1qAct(m, phi, d) == LET mm == Mod(m, 4) IN
+  CASE mm = 0 -> << <<d>>, 0 >> [] mm = 2 -> << <<d>>, 24 >>
+    [] mm = 1 -> IF d = 0 THEN << <<1>>, NormPh(36 + 6 * phi) >> ELSE << <<0>>, NormPh(36 - 6 * phi) >>
+    [] mm = 3 -> IF d = 0 THEN << <<1>>, NormPh(12 + 6 * phi) >> ELSE << <<0>>, NormPh(12 - 6 * phi) >>
+
 Gate1(name, p, d, r) ==
   CASE name = "I"    -> << <<d>>, 0 >>
     [] name = "X"    -> << <<1 - d>>, 0 >>
@@ -97,6 +103,18 @@ Gate1(name, p, d, r) ==
     [] name = "RY"   -> RYAct(p[1] \div 4, d)
     [] name = "U3"   -> U3Act(p[1] \div 4, p[2], p[3], d)
     [] name = "U2"   -> << <<d>>, 0 >>      \* never monomial; placeholder so CASE is total for names
+    [] name = "U1q"  -> U1qAct(p[1] \div 4, p[2], d)
+RXXAct(mm, a, b) ==
+  CASE mm = 0 -> << <<a, b>>, 0 >> [] mm = 2 -> << <<a, b>>, 24 >>
+    [] mm = 1 -> << <<1 - a, 1 - b>>, 36 >> [] mm = 3 -> << <<1 - a, 1 - b>>, 12 >>
+RYYAct(mm, a, b) ==
+  CASE mm = 0 -> << <<a, b>>, 0 >> [] mm = 2 -> << <<a, b>>, 24 >>
+    [] mm = 1 -> << <<1 - a, 1 - b>>, IF a = b THEN 12 ELSE 36 >>
+    [] mm = 3 -> << <<1 - a, 1 - b>>, IF a = b THEN 36 ELSE 12 >>
+FSIMAct(k, phi, a, b) ==
+  IF a = b THEN << <<a, b>>, IF a = 1 THEN NormPh(-6 * phi) ELSE 0 >>
+  ELSE CASE k = 0 -> << <<a, b>>, 0 >> [] k = 2 -> << <<a, b>>, 24 >>
+         [] k = 1 -> << <<b, a>>, 36 >> [] k = 3 -> << <<b, a>>, 12 >>
 Gate2(name, p, a, b, ra, rb) ==
   CASE name = "CX"   -> << <<a, IF a = 1 THEN 1 - b ELSE b>>, 0 >>
     [] name = "CY"   -> IF a = 1 THEN << <<a, 1 - b>>, IF b = 0 THEN 12 ELSE 36 >> ELSE << <<a, b>>, 0 >>
@@ -114,15 +132,67 @@ Gate2(name, p, a, b, ra, rb) ==
     [] name = "RZZ"  -> << <<a, b>>, IF a = b THEN NormPh(-3 * p[1]) ELSE NormPh(3 * p[1]) >>
     [] name = "CRX"  -> IF a = 1 THEN LET g == RXAct(p[1] \div 4, b) IN << <<a, g[1][1]>>, g[2] >> ELSE << <<a, b>>, 0 >>
     [] name = "CRY"  -> IF a = 1 THEN LET g == RYAct(p[1] \div 4, b) IN << <<a, g[1][1]>>, g[2] >> ELSE << <<a, b>>, 0 >>
+    \* RXX(m*pi) = cos(m pi/2) I - i sin(m pi/2) X(x)X ; RYY likewise with Y(x)Y (Y(x)Y|ab> = -(-1)^(a+b) |1-a,1-b>)
+    [] name = "RXX"  -> RXXAct(Mod(p[1] \div 4, 4), a, b)
+    [] name = "RYY"  -> RYYAct(Mod(p[1] \div 4, 4), a, b)
+    \* FSIM(theta, phi) (cirq FSimGate): theta = k*pi/2 (p[1] even), |11> -> e^{-i phi}|11>
+    [] name = "FSIM" -> FSIMAct(Mod(p[1] \div 2, 4), p[2], a, b)
+    \* CU(theta, phi, lambda, gamma) = |0><0| (x) I + |1><1| (x) e^{i gamma} U3(theta, phi, lambda)   (OpenQASM 3 / Qiskit CUGate)
+    [] name = "CU"   -> IF a = 1 THEN LET g == U3Act(p[1] \div 4, p[2], p[3], b) IN << <<a, g[1][1]>>, NormPh(g[2] + 6 * p[4]) >>
+                        ELSE << <<a, b>>, 0 >>
+    \* SubSwap: p = <<a1, b1, a2, b2>>: exchanges |a1 b1> and |a2 b2>
+    [] name = "SUBSWAP" -> IF a = p[1] /\ b = p[2] THEN << <<p[3], p[4]>>, 0 >>
+                           ELSE IF a = p[3] /\ b = p[4] THEN << <<p[1], p[2]>>, 0 >> ELSE << <<a, b>>, 0 >>
 Gate3(name, p, a, b, c) ==
   CASE name = "CCX"  -> << <<a, b, IF a = 1 /\ b = 1 THEN 1 - c ELSE c>>, 0 >>
     [] name = "CCZ"  -> << <<a, b, c>>, 24 * a * b * c >>
     [] name = "CSWAP" -> IF a = 1 THEN << <<a, c, b>>, 0 >> ELSE << <<a, b, c>>, 0 >>
     [] name = "CCP"  -> << <<a, b, c>>, NormPh(6 * p[1] * a * b * c) >>
+    [] name = "IToffoli" -> IF a = 1 /\ b = 1 THEN << <<a, b, 1 - c>>, 12 >> ELSE << <<a, b, c>>, 0 >>      \* diag(I_6, i X)
+    \* relative-phase Toffoli (Qiskit RCCXGate, "Margolus"): |101> -> -|101>, |110> -> i|111>, |111> -> -i|110>
+    [] name = "RCCX" -> IF a = 1 /\ b = 1 THEN << <<a, b, 1 - c>>, IF c = 0 THEN 12 ELSE 36 >>
+                        ELSE << <<a, b, c>>, IF a = 1 /\ c = 1 THEN 24 ELSE 0 >>
+\* relative-phase 3-controlled X (Qiskit RC3XGate): |1100> -> i|1100>, |1101> -> -i|1101>, |1110> -> -|1111>, |1111> -> |1110>
+Gate4(name, p, a, b, c, d) ==
+  CASE name = "RC3X" -> IF a = 1 /\ b = 1 THEN (IF c = 0 THEN << <<a, b, c, d>>, IF d = 0 THEN 12 ELSE 36 >>
+                                                 ELSE << <<a, b, c, 1 - d>>, IF d = 0 THEN 24 ELSE 0 >>)
+                        ELSE << <<a, b, c, d>>, 0 >>
+\* gates of any arity; constructor arguments (if any) come first in p, then the parameters
+GenericNames == {"IDN", "PERM", "ACP", "DIAG", "MPRZ", "MPRY"}
+RECURSIVE BitsIndex(_, _, _)
+BitsIndex(l, skip, k) == IF k = 0 THEN 0 ELSE IF k = skip THEN BitsIndex(l, skip, k - 1) ELSE 2 * BitsIndex(l, skip, k - 1) + l[k]
+GateN(name, p, l, lr) ==
+  CASE name = "IDN"  -> << l, 0 >>                                   \* IdentityGate(n, radixes)
+    \* PermutationGate(n, location) = PermutationMatrix.from_qubit_location: qudit p[i] moves to position i, the rest follow in increasing order
+    [] name = "PERM" -> LET rest == SelectSeq([i \in 1..Len(l) |-> i - 1], LAMBDA q : \A j \in 1..Len(p) : p[j] # q)
+                            full == p \o rest
+                        IN << [i \in 1..Len(l) |-> l[full[i] + 1]], 0 >>
+    \* ArbitraryCPhaseGate(radixes): only the last basis state gets e^{i theta}
+    [] name = "ACP"  -> << l, IF \A i \in 1..Len(l) : l[i] = lr[i] - 1 THEN NormPh(6 * p[1]) ELSE 0 >>
+    \* DiagonalGate(n): diag(1, e^{i t1}, ..., e^{i t_{2^n - 1}})
+    [] name = "DIAG" -> << l, IF Index(l, lr) = 0 THEN 0 ELSE NormPh(6 * p[Index(l, lr)]) >>
+    \* multiplexed rotations: p = <<target>> \o thetas; select index = the other qubits in order, qubit 0 most significant
+    [] name = "MPRZ" -> LET t == p[1] + 1  s == BitsIndex(l, t, Len(l)) IN << l, RZAct(p[s + 2], l[t])[2] >>
+    [] name = "MPRY" -> LET t == p[1] + 1  s == BitsIndex(l, t, Len(l))  g == RYAct(p[s + 2] \div 4, l[t])
+                        IN << [i \in 1..Len(l) |-> IF i = t THEN g[1][1] ELSE l[i]], g[2] >>
 Gate(name, p, l, lr) ==
-  IF Len(l) = 1 THEN Gate1(name, p, l[1], lr[1])
+  IF name \in GenericNames THEN GateN(name, p, l, lr)
+  ELSE IF Len(l) = 1 THEN Gate1(name, p, l[1], lr[1])
   ELSE IF Len(l) = 2 THEN Gate2(name, p, l[1], l[2], lr[1], lr[2])
-  ELSE Gate3(name, p, l[1], l[2], l[3])
+  ELSE IF Len(l) = 3 THEN Gate3(name, p, l[1], l[2], l[3])
+  ELSE Gate4(name, p, l[1], l[2], l[3], l[4])
+
+\* number of real parameters of a named gate (p as given in an op record: constructor arguments first)
+ParamArity(name, p) ==
+  CASE name \in {"RZ", "U1", "RX", "RY", "CP", "CRZ", "RZZ", "CRX", "CRY", "CCP", "RXX", "RYY", "ACP"} -> 1
+    [] name \in {"FSIM", "U1q", "U2"} -> 2
+    [] name = "U3" -> 3
+    [] name = "CU" -> 4
+    [] name = "DIAG" -> Len(p)
+    [] name \in {"MPRZ", "MPRY"} -> Len(p) - 1
+    [] OTHER -> 0
+\* where the real parameters start inside p
+ParamOffset(name) == IF name \in {"MPRZ", "MPRY"} THEN 1 ELSE 0
 
 \* table of a named gate on radixes lr
 GateTable(name, p, lr) ==
@@ -137,6 +207,20 @@ Controlled(T, cr, levels, tr) ==
          active == \A i \in 1..nc : \E j \in 1..Len(levels[i]) : levels[i][j] = d[i]
          tb == Index(SubSeq(d, nc + 1, Len(r)), tr)
      IN IF active THEN [idx |-> (b - 1 - tb) + T[tb + 1].idx, ph |-> T[tb + 1].ph] ELSE [idx |-> b - 1, ph |-> 0]])
+
+\* Embedded(T, ir, or, maps): T acts on inner radixes ir; level j of inner qudit i is level maps[i][j+1] of the outer
+\* qudit (radixes or); every basis state with some digit outside its map is left alone.
+Embedded(T, ir, or, maps) ==
+  TLCEval([b \in 1..Dim(or) |->
+     LET d == Digits(b - 1, or)
+         inside == \A i \in 1..Len(or) : \E j \in 1..Len(maps[i]) : maps[i][j] = d[i]
+     IN IF ~inside THEN [idx |-> b - 1, ph |-> 0]
+        ELSE LET e == [i \in 1..Len(or) |-> (CHOOSE j \in 1..Len(maps[i]) : maps[i][j] = d[i]) - 1]
+                 o == T[Index(e, ir) + 1]
+                 od == Digits(o.idx, ir)
+             IN [idx |-> Index([i \in 1..Len(or) |-> maps[i][od[i] + 1]], or), ph |-> o.ph]])
+\* the same operator times the global phase g
+PhaseMul(T, g) == TLCEval([b \in 1..Len(T) |-> [idx |-> T[b].idx, ph |-> NormPh(T[b].ph + g)]])
 
 \* ---------------------------------------------------------- circuits
 \* An op is [g |-> name | "TABLE" | "BLOCK", p |-> params, loc |-> 0-based qudits (any order),
